@@ -207,6 +207,13 @@ func (e *Engine) gotoBlock(st *State, b *ssa.BasicBlock) {
 	fr.prev = fr.blk
 	fr.blk = b
 	fr.idx = 0
+	if e.liveBlocks != nil && st.dry == nil && len(st.frames) == 1 && fr.fn == e.curFn && !e.liveBlocks[b] {
+		// nothing the contract speaks about can happen on this path any more
+		// (vacuity canary, as at a return: the assumptions on this path must be consistent)
+		e.oblige(st, "canary", b.Instrs[0].Pos(), "", "false")
+		st.dead = true
+		st.cutEarly = true
+	}
 }
 
 func (e *Engine) doIf(st *State, in *ssa.If) []*State {
@@ -266,6 +273,11 @@ func (e *Engine) doAlloc(st *State, in *ssa.Alloc) {
 	}
 	if isStruct(t) || isArray(t) {
 		v := e.allocObject(st, t, "obj_"+in.Comment)
+		if !in.Heap && len(st.frames) == 1 {
+			// a variable of the function's own activation record (go/ssa: its address is never taken explicitly nor
+			// captured): callees cannot reach it, so their frames must not havoc it
+			e.recordStackLocs(st, v.T, t)
+		}
 		e.setReg(st, in, v)
 		if in.Comment != "" {
 			st.top().cellByName["&"+in.Comment] = -1
@@ -1040,9 +1052,7 @@ func (e *Engine) localStructOK(a *ssa.Alloc) bool {
 					return false
 				}
 				ft := t.Underlying().(*types.Struct).Field(u.Field).Type()
-				if isArray(ft) {
-					return false
-				}
+				// (an array-typed field is fine as long as it is only loaded or stored as a whole: checked below like a leaf)
 				if isStruct(ft) {
 					if !okAddr(u, ft) {
 						return false
@@ -1089,4 +1099,34 @@ func hasOblig(items []Item) bool {
 		}
 	}
 	return false
+}
+
+func (e *Engine) recordStackLocs(st *State, r string, t types.Type) {
+	switch u := t.Underlying().(type) {
+	case *types.Struct:
+		for _, l := range e.allLeaves(r, t) {
+			if l.Heap != "" && l.Base != "" {
+				st.stackLocs = append(st.stackLocs, [2]string{l.Heap, l.Base})
+			}
+		}
+	case *types.Array:
+		if !isStruct(u.Elem()) {
+			st.stackLocs = append(st.stackLocs, [2]string{e.d.ElemHeapT(u.Elem()), r})
+		}
+	}
+}
+
+// restoreStackLocs: after a call, the objects of the activation record are as they were before it.
+func (e *Engine) restoreStackLocs(st *State, pre map[string]string) {
+	for _, hb := range st.stackLocs {
+		h, b := hb[0], hb[1]
+		old, ok := pre[h]
+		if !ok {
+			old = h
+		}
+		cur := st.heapGet(h)
+		if cur != old {
+			st.assume(fmt.Sprintf("(= (select %s %s) (select %s %s))", cur, b, old, b))
+		}
+	}
 }
